@@ -1,9 +1,16 @@
-"""Static guard map of C15: every call in `Eups.declare / undeclare / assignTag / unassignTag / remove` that can
-write (a `Database` or `ProductStack` mutator, a file-system mutator, another of these Eups methods), with the
-`noaction` conditions that dominate it.  Derived from the source on disk by an AST walk; compared on every run
-with the list recorded beside the model (`c15_guardmap.json`).  Conditions that do not mention `noaction`, line
-numbers, variable names in arguments and anything that is not a write call are ignored, so a harmless
-refactoring leaves the map unchanged; a new write site or a lost guard changes it."""
+"""Static guard map of C15: every call that can write (a `Database` or `ProductStack` mutator, a file-system
+mutator) REACHABLE from `Eups.declare / undeclare / assignTag / unassignTag / remove` through methods of class
+`Eups`, with whether the `noaction` conditions dominating it — along the whole call chain — imply `not noaction`.
+
+The summary compared with the recorded one (`c15_guardmap.json`) is *semantic*: one row per (chain of the five public
+methods the call is reached through, what is called, guarded or not).  Helper methods (`self._anything(...)`) are
+inlined at their call sites, so extracting or merging helpers changes nothing; the receiver of a call is dropped
+(`self.versions[d].save` = `stack.save`); the text of the guards is dropped (`if not self.noaction:` = `if
+self.noaction: ...; return` = `else:` of `if self.noaction`); a local alias of the flag (`dry = self.noaction`) is
+expanded; rows are a set (duplicated code may be merged).  A write site that loses its guard, a new unguarded kind of
+write, a scratch file made elsewhere than the system's temporary directory: the rows differ.  The dynamic part of
+harness/c15.py (call trace + audit of every write under the stacks in every generated dry run) covers what a
+summary of this kind cannot see."""
 import ast
 import json
 import os
@@ -72,23 +79,94 @@ def _ends_flow(body):
     return bool(body) and isinstance(body[-1], (ast.Return, ast.Raise, ast.Continue, ast.Break))
 
 
+MODULES = ("os", "shutil", "subprocess", "utils", "pickle", "tempfile")
+MAXDEPTH = 6
+
+
+def _kind(w):
+    """what is called, receiver dropped unless it is a module"""
+    head = w.split("[dir=")[0]
+    tail = w[len(head):]
+    parts = head.split(".")
+    if parts[0] in MODULES:
+        return head + tail
+    return parts[-1] + tail
+
+
+class _Subst(ast.NodeTransformer):
+    def __init__(self, env):
+        self.env = env
+
+    def visit_Name(self, node):
+        if isinstance(node.ctx, ast.Load) and node.id in self.env:
+            return self.env[node.id]
+        return node
+
+
+def _aliases(fn):
+    """local names bound exactly once, to an expression of the dry-run flag (`dry = self.noaction`)"""
+    count, val = {}, {}
+    for n in ast.walk(fn):
+        if isinstance(n, ast.Assign):
+            for t in n.targets:
+                for x in ast.walk(t):
+                    if isinstance(x, ast.Name):
+                        count[x.id] = count.get(x.id, 0) + 1
+                        if len(n.targets) == 1 and isinstance(t, ast.Name):
+                            val[x.id] = n.value
+        elif isinstance(n, (ast.AugAssign, ast.AnnAssign, ast.For, ast.With, ast.NamedExpr)):
+            for x in ast.walk(getattr(n, "target", None) or ast.Pass()):
+                if isinstance(x, ast.Name):
+                    count[x.id] = count.get(x.id, 0) + 2
+    return {k: v for k, v in val.items() if count.get(k) == 1 and "noaction" in ast.unparse(v)}
+
+
+def _test_text(test, env):
+    import copy
+    t = _Subst(env).visit(copy.deepcopy(test)) if env else test
+    txt = ast.unparse(ast.fix_missing_locations(t))
+    txt = re.sub(r"not \((self\.noaction)\)", r"not \1", txt)
+    return txt
+
+
 class _Walker:
-    def __init__(self, fn):
-        self.fn = fn
+    """sites of one public method, helper methods of the class inlined"""
+    def __init__(self, root, methods):
+        self.root = root
+        self.methods = methods          # name -> FunctionDef of class Eups
         self.sites = []
+        self.stack = []                 # methods being inlined (cycle guard)
+        self.chain = [root]
+        self.env = {}
+
+    def run(self):
+        self.enter(self.root, [])
+        return self.sites
+
+    def enter(self, name, guards):
+        fn = self.methods[name]
+        saved = self.env
+        self.env = _aliases(fn)
+        self.stack.append(name)
+        self.block(fn.body, guards)
+        self.stack.pop()
+        self.env = saved
+
+    def mentions(self, test):
+        return "noaction" in _test_text(test, self.env)
 
     def block(self, stmts, guards):
         guards = list(guards)
         for st in stmts:
             self.stmt(st, guards)
-            if isinstance(st, ast.If) and _mentions_noaction(st.test) and _ends_flow(st.body) and not st.orelse:
-                guards = guards + ["after: if %s: leave" % ast.unparse(st.test)]
+            if isinstance(st, ast.If) and self.mentions(st.test) and _ends_flow(st.body) and not st.orelse:
+                guards = guards + ["after: if %s: leave" % _test_text(st.test, self.env)]
 
     def stmt(self, st, guards):
         if isinstance(st, ast.If):
             self.expr(st.test, guards)
-            if _mentions_noaction(st.test):
-                t = ast.unparse(st.test)
+            if self.mentions(st.test):
+                t = _test_text(st.test, self.env)
                 self.block(st.body, guards + ["if %s" % t])
                 self.block(st.orelse, guards + ["else of: if %s" % t])
             else:
@@ -115,11 +193,24 @@ class _Walker:
 
     def expr(self, node, guards):
         for n in ast.walk(node):
-            if isinstance(n, ast.Call):
-                w = _is_write(n)
-                if w:
-                    g = [x for x in guards]
-                    self.sites.append({"fn": self.fn, "call": w, "guards": g, "protected": protected(g)})
+            if not isinstance(n, ast.Call):
+                continue
+            f = n.func
+            if isinstance(f, ast.Attribute) and isinstance(f.value, ast.Name) and f.value.id == "self" and f.attr in self.methods:
+                # a method of the class: inlined at the call site, under the guards of the call site
+                if f.attr in self.stack or len(self.stack) >= MAXDEPTH:
+                    continue
+                public = f.attr in METHODS
+                if public:
+                    self.chain.append(f.attr)
+                self.enter(f.attr, guards)
+                if public:
+                    self.chain.pop()
+                continue
+            w = _is_write(n)
+            if w:
+                self.sites.append({"fn": ">".join(self.chain), "call": _kind(w), "guards": list(guards),
+                                   "protected": protected(guards)})
 
 
 def protected(guards):
@@ -143,19 +234,22 @@ def extract(repo):
     out = []
     for cls in tree.body:
         if isinstance(cls, ast.ClassDef) and cls.name == "Eups":
-            for fn in cls.body:
-                if isinstance(fn, ast.FunctionDef) and fn.name in METHODS:
-                    w = _Walker(fn.name)
-                    w.block(fn.body, [])
-                    out += w.sites
+            methods = {fn.name: fn for fn in cls.body if isinstance(fn, ast.FunctionDef)}
+            for name in METHODS:
+                if name in methods:
+                    out += _Walker(name, methods).run()
     return out
 
 
 def summarise(sites):
-    """multiset of (fn, call, protected, guards) as sorted list of strings"""
-    rows = ["%s | %s | %s | %s" % (s["fn"], s["call"], "guarded" if s["protected"] else "UNGUARDED", "; ".join(s["guards"]))
-            for s in sites]
-    return sorted(rows)
+    """the set of (chain of public methods, call, guarded or not), as a sorted list of strings"""
+    return sorted(set("%s | %s | %s" % (s["fn"], s["call"], "guarded" if s["protected"] else "UNGUARDED") for s in sites))
+
+
+def explain(sites, row):
+    """the guards of the sites behind one row of the summary (for the note of a disagreement)"""
+    return ["; ".join(s["guards"]) or "(no guard)" for s in sites
+            if "%s | %s | %s" % (s["fn"], s["call"], "guarded" if s["protected"] else "UNGUARDED") == row][:3]
 
 
 def recorded():
